@@ -535,6 +535,19 @@ func (f *Frame) convert(in *ssa.Convert) {
 		n := fmt.Sprintf("(go.runecount %s)", x)
 		e.assume(f.reach, fmt.Sprintf("(and (<= 0 %s) (<= %s (str.len %s)))", n, n, x))
 		f.setVal(in, fmt.Sprintf("(mkSlice %s 0 %s %s)", ref, n, n))
+	case isString(from) && isByteSlice(to) && !e.bv():
+		// []byte(s): a fresh array of exactly len(s) bytes; its contents are an uninterpreted function of s
+		if !e.ufSeen["go.bytes"] {
+			e.ufSeen["go.bytes"] = true
+			e.ufDecls = append(e.ufDecls, "(declare-fun go.bytes (String) (Array Int Int))")
+		}
+		elem := to.Underlying().(*types.Slice).Elem()
+		ref := e.allocRef(f.st)
+		comp := elemCompName(e, elem)
+		h := e.comp(f.st, comp, e.elemSort(elem))
+		e.setComp(f.st, comp, fmt.Sprintf("(store %s %s (go.bytes %s))", h, ref, x))
+		n := fmt.Sprintf("(str.len %s)", x)
+		f.setVal(in, fmt.Sprintf("(mkSlice %s 0 %s %s)", ref, n, n))
 	case isRuneSlice(from) && isString(to) && !e.bv():
 		// string(rs): an uninterpreted function of the backing row, the offset and the length
 		e.runeDecls()
@@ -716,8 +729,13 @@ func (f *Frame) instr(in ssa.Instruction) {
 		if isPointerLike(t) {
 			f.setVal(in, fmt.Sprintf("(mkI %d %s)", tag, x))
 		} else {
-			box, _ := e.boxFn(t)
+			box, unbox := e.boxFn(t)
 			f.setVal(in, fmt.Sprintf("(%s %d %s)", box, tag, x))
+			if opaqueBox(e.sortOf(t)) {
+				// opaque boxes are uninterpreted; a ground instance of "unboxing what was boxed gives it back" for
+				// this value keeps slice / struct payloads readable in postconditions (no quantified axiom)
+				e.assume(f.reach, fmt.Sprintf("(= (%s (%s %d %s)) %s)", unbox, box, tag, x, x))
+			}
 		}
 	case *ssa.TypeAssert:
 		f.typeAssert(in)
@@ -1670,6 +1688,15 @@ func isRuneSlice(t types.Type) bool {
 	}
 	b, ok := sl.Elem().Underlying().(*types.Basic)
 	return ok && b.Kind() == types.Int32
+}
+
+func isByteSlice(t types.Type) bool {
+	sl, ok := t.Underlying().(*types.Slice)
+	if !ok {
+		return false
+	}
+	b, ok := sl.Elem().Underlying().(*types.Basic)
+	return ok && b.Kind() == types.Uint8
 }
 
 // runeDecls declares the uninterpreted functions of the string <-> []rune model (mode int only).
